@@ -78,7 +78,7 @@ def showMsListAcc : MsList → String → String
   | .cons x xs, acc => showMsListAcc xs (showMsAcc x (acc.push ','))
 end
 
-def showMs (m : Ms) : String := showMsAcc m ""
+def showWire (m : Ms) : String := showMsAcc m ""
 
 def showKeys (ks : List Nat) : String := if ks.isEmpty then "-" else joinNat ks
 
@@ -162,7 +162,7 @@ def translatorOf (name : String) : Option (Translator Nat Atom) :=
     | _ => none
 
 def showTr : Except (TrErr Atom) (Ms × Nat) → String
-  | .ok (m, _) => showMs m
+  | .ok (m, _) => showWire m
   | .error (.translatorErr (.key k)) => s!"ERR:K{k}"
   | .error (.translatorErr (.hash kind h)) => s!"ERR:H{HashKind.name kind}:{h}"
   | .error .outerError => "ERR:outer"
@@ -217,13 +217,13 @@ def opsCmp (t : Tables) (kind op : String) (args : List String) : Option String 
     pure (if hashWords a = hashWords b then "same" else "diff")
   | "C", "msclone", [_ctx, a] => do
     let a ← parseAst a
-    pure (match msClone a with | .ok m => showMs m | .error _ => "PANIC")
+    pure (match msClone a with | .ok m => showWire m | .error _ => "PANIC")
   | "C", "translate", [ctx, map, a] => do
     let ctx ← parseCtx ctx; let a ← parseAst a
     runTranslate t.keyEnv ctx map a
   | "C", "iterpk", [_ctx, a] => do
     let a ← parseAst a
-    pure (showKeys a.iterPk)
+    pure (showKeys a.iterPkLit)
   | "C", "foreachkey", [_ctx, stop, a] => do
     let a ← parseAst a; let stop ← parseOptNat stop
     pure (showVisit (forEachKey (fun k => some k != stop) a))
@@ -232,7 +232,7 @@ def opsCmp (t : Tables) (kind op : String) (args : List String) : Option String 
     pure (showVisit (forAnyKey (fun k => some k == hit) a))
   | "C", "substraw", [_ctx, map, a] => do
     let a ← parseAst a; let map ← parseRawMap map
-    pure (match substituteRawPkh (fun h => map.lookup h) a with | .ok m => showMs m | .error _ => "PANIC")
+    pure (match substituteRawPkh (fun h => map.lookup h) a with | .ok m => showWire m | .error _ => "PANIC")
   | "J", "eqstruct", [fam, a, b, eq, cmp, hsh, dsp] => do
     let same ← structEq fam a b
     let eq := eq == "1"
@@ -264,7 +264,7 @@ def opsCmp (t : Tables) (kind op : String) (args : List String) : Option String 
   | "J", "translate-compose", [ctx, f, g, a, comp, seq] => do
     let ctx ← parseCtx ctx; let x ← parseAst a
     let f ← pureMapOf f; let g ← pureMapOf g
-    let want := showMs (x.mapKeys (g.f ∘ f.f) (fun kind h => g.g kind (f.g kind h)))
+    let want := showWire (x.mapKeys (g.f ∘ f.f) (fun kind h => g.g kind (f.g kind h)))
     let mid := x.mapKeys f.f f.g
     -- legality of the intermediate / final objects in this context, node by node
     let legal (m : Ms) : Bool := m.pre.all (chkCtx t.keyEnv ctx)
